@@ -28,10 +28,12 @@ class EnumRecursiveEncoder(QuasiLazyEncoder):
             return []
 
         n = self.n_divide
-        n_var = int(np.ceil(np.log(n_mat)/np.log(n)))
 
         # Get design vector values that lead to inactive variables (due to nr cutoff)
+        # (the nr of variables is the nr of digits of the last index; a ceil(log(n_mat)/log(n)) is off by one for some
+        # exact powers due to floating point rounding, e.g. 27 or 729 matrices with n=3)
         dv_last = np.array(self.base_repr_int(n_mat-1, n))
+        n_var = len(dv_last)
         i_inactive = np.where(dv_last == 0)[0]
         if len(i_inactive) > 0:
             left_side_values = dv_last[:i_inactive[-1]+1].copy()
